@@ -2,6 +2,7 @@ pub mod forward;
 pub mod h1;
 pub mod relay;
 pub mod requests;
+pub mod services;
 pub mod timeouts;
 
 use crate::scenario::Scenario;
@@ -11,7 +12,7 @@ static RESPONSES: requests::Requests = requests::Requests { focus: requests::Foc
 static EGRESS: requests::Requests = requests::Requests { focus: requests::Focus::Egress };
 
 pub fn all() -> Vec<&'static dyn Scenario> {
-    vec![&relay::Relay, &AUTH, &RESPONSES, &EGRESS, &h1::H1, &timeouts::Timeouts, &forward::Forward]
+    vec![&relay::Relay, &AUTH, &RESPONSES, &EGRESS, &h1::H1, &timeouts::Timeouts, &forward::Forward, &services::Services]
 }
 
 pub fn by_name(name: &str) -> Option<&'static dyn Scenario> {
